@@ -17,6 +17,8 @@ the point set of a permutation and to the centres of the cells of a shading.  Su
   scale       perm_ops / mesh_ops / all_syms / sets / equiv again on a sparse, fully enumerated
               family of long structured permutations (lengths 7..12, 31..34, 255..258, 300) and
               mixed-length sets containing one of them, in several container kinds
+  abort       every operation of the property cut off at each of its calls into the library, then
+              everything asked again on the same and on fresh equal objects
   cli         `permtools lexmin <basis>` driven in-process (cli.main / parser / get_lex_min),
               stdout captured, 0- and 1-based spellings, several separators and orders
 """
@@ -55,6 +57,15 @@ def _rot_ops(ks):
     return [("rotate(%d)" % k, "rotate", (k,), X.rot_name(k)) for k in ks]
 
 
+def _rot_kw_ops(ks):
+    """The same call with the count given by keyword (args is then a dict)."""
+    return [("rotate(times=%d)" % k, "rotate", {"times": k}, X.rot_name(k)) for k in ks]
+
+
+def _call(obj, name, args):
+    return getattr(obj, name)(**args) if isinstance(args, dict) else getattr(obj, name)(*args)
+
+
 # (label, method name, args, name of the geometric map)
 PERM_NAMED = [
     ("reverse", "reverse", (), "reverse"),
@@ -76,8 +87,9 @@ MESH_NAMED = [
     ("flip_diagonal", "flip_diagonal", (), "inverse"),
     ("rotate()", "rotate", (), "rot90"),
 ]
-PERM_OPS = PERM_NAMED + _rot_ops(KS) + _rot_ops(BIG_KS)
-MESH_OPS = MESH_NAMED + _rot_ops(KS) + _rot_ops(BIG_KS)
+KW_KS = [-5, -1, 0, 1, 2, 3]
+PERM_OPS = PERM_NAMED + _rot_ops(KS) + _rot_ops(BIG_KS) + _rot_kw_ops(KW_KS)
+MESH_OPS = MESH_NAMED + _rot_ops(KS) + _rot_ops(BIG_KS) + _rot_kw_ops(KW_KS)
 PERM_OPS_CORE = PERM_NAMED + _rot_ops([-3, -2, -1, 0, 1, 2, 3, 4])
 MESH_OPS_CORE = [o for o in MESH_NAMED if o[0] in ("reverse", "complement", "inverse")] + \
     _rot_ops([-1, 0, 1, 2, 3])
@@ -206,7 +218,7 @@ def _apply_perm(P, op):
     """Result of op on P as a plain tuple, or a string describing what went wrong."""
     lib = _lib()
     try:
-        got = getattr(P, op[1])(*op[2])
+        got = _call(P, op[1], op[2])
     except Exception as exc:  # noqa
         return "exception %r" % (exc,)
     if not isinstance(got, lib.Perm):
@@ -216,7 +228,7 @@ def _apply_perm(P, op):
 
 def _apply_mesh(M, op):
     try:
-        return mesh_struct(getattr(M, op[1])(*op[2]))
+        return mesh_struct(_call(M, op[1], op[2]))
     except Exception as exc:  # noqa
         return "exception %r" % (exc,)
 
@@ -608,6 +620,16 @@ def case_all_syms(part, case):
         if not isinstance(res, (tuple, list, set, frozenset)):
             raise TypeError("all_syms returned %s" % type(res).__name__)
         got = [_struct_any(kind, y) for y in res]
+        if isinstance(res, (list, set)):
+            # FRESH: a mutable result must not be shared with later callers
+            damage(res)
+            for y in (x, _build_any(kind, case)):
+                again = [_struct_any(kind, z) for z in y.all_syms()]
+                if sorted(map(repr, again)) != sorted(map(repr, got)):
+                    part.violation("all_syms", case, {"after the returned container was modified":
+                                                      sorted(map(repr, again)),
+                                                      "before": sorted(map(repr, got))})
+                    return None
     except Exception as exc:  # noqa
         part.violation("all_syms", case, {"exception": repr(exc)})
         return None
@@ -643,27 +665,57 @@ def shard_all_syms(shard):
 HELPERS = [("reverse_set", "reverse"), ("complement_set", "complement"), ("inverse_set", "inverse"),
            ("antidiagonal_set", "antidiagonal"), ("rotate_90_clockwise_set", "rot90"),
            ("rotate_180_clockwise_set", "rot180"), ("rotate_270_clockwise_set", "rot270")]
-FORMS = ["list", "tuple", "iter", "set", "frozenset", "reversed", "generator"]
+# FORMS: the same logical collection in every form the signature (Iterable[Perm]) admits
+FORMS = ["list", "tuple", "iter", "set", "frozenset", "reversed", "generator", "map", "helper",
+         "dup", "kw", "Basis"]
+UNORDERED = ("set", "frozenset")
+
+
+def logical_input(form, B):
+    """The collection (as a list of plain tuples, in iteration order where there is one) that the
+    form denotes, or None if the form does not apply to B."""
+    B = [tuple(p) for p in B]
+    if form == "dup":                       # a repeated element, see case_sets
+        return B if B else None
+    if form == "reversed":
+        return B[::-1]
+    if form == "Basis":                     # a Basis object holds B itself iff B is an antichain
+        return sorted(B, key=X.pkey) if (B and X.is_antichain(B)) else None
+    return B
 
 
 def make_form(form, B):
+    """-> (positional args, keyword args) for a function taking the collection."""
     lib = _lib()
+    from permuta import permutils
     objs = [lib.Perm(p) for p in B]
+    if form == "kw":
+        return (), {"perms": objs}
     if form == "list":
-        return objs
-    if form == "tuple":
-        return tuple(objs)
-    if form == "iter":
-        return iter(objs)
-    if form == "set":
-        return set(objs)
-    if form == "frozenset":
-        return frozenset(objs)
-    if form == "reversed":
-        return objs[::-1]
-    if form == "generator":
-        return (o for o in objs)
-    raise ValueError(form)
+        arg = objs
+    elif form == "tuple":
+        arg = tuple(objs)
+    elif form == "iter":
+        arg = iter(objs)
+    elif form == "set":
+        arg = set(objs)
+    elif form == "frozenset":
+        arg = frozenset(objs)
+    elif form == "reversed":
+        arg = objs[::-1]
+    elif form == "generator":
+        arg = (o for o in objs)
+    elif form == "map":
+        arg = map(lambda o: o, objs)
+    elif form == "helper":                  # the library's own lazily evaluated helper output
+        arg = permutils.inverse_set(permutils.inverse_set(objs))
+    elif form == "dup":
+        arg = objs + [lib.Perm(B[0])]
+    elif form == "Basis":
+        arg = lib.Basis(*objs)
+    else:
+        raise ValueError(form)
+    return (arg,), {}
 
 
 def _plain_sets(res):
@@ -679,55 +731,137 @@ def _plain_sets(res):
     return out
 
 
-def case_sets(part, case, ref=None):
-    """case = {"basis": [perms], "form": container kind}"""
+def damage(res):
+    """FRESH dimension: spoil a returned mutable container in place (a later answer must not be
+    served from it)."""
+    if isinstance(res, set):
+        res.clear()
+        res.add(("damaged",))
+    elif isinstance(res, list):
+        res.reverse()
+        res.append("damaged")
+        del res[:1]
+    elif isinstance(res, dict):
+        res.clear()
+
+
+def _sets_eval(form, basis, L, orbit, lmin):
+    """All functions of permutils.symmetry on `basis` handed over in `form`, against the reference
+    (L = the logical collection in iteration order, its orbit, its lex-min).  -> dict of failures."""
     from permuta import permutils
-    B = [tuple(p) for p in case["basis"]]
-    form = case["form"]
-    orbit, lmin = ref if ref is not None else (X.orbit_sets(B), X.lex_min(B))
     bad = {}
+
+    def call(fname):
+        args, kw = make_form(form, basis)
+        return getattr(permutils, fname)(*args, **kw)
+
     try:
-        got = _plain_sets(permutils.all_symmetry_sets(make_form(form, B)))
+        args, kw = make_form(form, basis)
+        res = permutils.all_symmetry_sets(*args, **kw)
+        got = _plain_sets(res)
         if got != orbit:
             bad["all_symmetry_sets"] = {"missing": sorted(orbit - got), "extra": sorted(got - orbit)}
+        else:
+            damage(res)
+            again = [_plain_sets(call("all_symmetry_sets"))]
+            if form == "list":      # the very same argument object once more
+                again.append(_plain_sets(permutils.all_symmetry_sets(*args, **kw)))
+            if any(g != orbit for g in again):
+                bad["all_symmetry_sets after its result was modified"] = \
+                    {"expected": sorted(orbit), "got": [sorted(g) for g in again]}
     except Exception as exc:  # noqa
         bad["all_symmetry_sets"] = {"exception": repr(exc)}
     try:
-        got = tuple(tuple(q) for q in permutils.lex_min(make_form(form, B)))
+        got = tuple(tuple(q) for q in call("lex_min"))
         if got != lmin:
             bad["lex_min"] = {"expected": lmin, "got": got}
     except Exception as exc:  # noqa
         bad["lex_min"] = {"exception": repr(exc)}
-    for hname, s in HELPERS:
+    for hname, sym in HELPERS:
         try:
-            src = make_form(form, B)
-            order = [tuple(q) for q in src] if form in ("set", "frozenset") else None
-            if order is not None:
-                src = make_form(form, B)
-            res = getattr(permutils, hname)(src)
-            got = [tuple(q) for q in res]
-            if order is None:
-                order = B[::-1] if form == "reversed" else B
-                exp = X.image_set(s, order)
-                ok = got == exp
-            else:     # unordered container: compare as multisets
-                exp = X.image_set(s, B)
-                ok = sorted(got) == sorted(exp)
+            got = [tuple(q) for q in call(hname)]
+            exp = X.image_set(sym, L)
+            ok = (sorted(got) == sorted(exp)) if form in UNORDERED else (got == exp)
             if not ok:
                 bad[hname] = {"expected": exp, "got": got}
                 continue
-            if form not in ("list", "iter"):
-                continue
-            # lex_min is constant on the orbit: feed the helper's own (one-shot) output
-            got2 = tuple(tuple(q) for q in
-                         permutils.lex_min(getattr(permutils, hname)(make_form(form, B))))
+            # the helper's own (one-shot) output fed back in: lex_min is constant on the orbit and
+            # the orbit of an image is the orbit
+            got2 = tuple(tuple(q) for q in permutils.lex_min(call(hname)))
             if got2 != lmin:
                 bad["lex_min after " + hname] = {"expected": lmin, "got": got2}
+            got3 = _plain_sets(permutils.all_symmetry_sets(call(hname)))
+            if got3 != orbit:
+                bad["all_symmetry_sets after " + hname] = {"missing": sorted(orbit - got3),
+                                                           "extra": sorted(got3 - orbit)}
         except Exception as exc:  # noqa
             bad[hname] = {"exception": repr(exc)}
+    return bad
+
+
+def case_sets(part, case, ref=None):
+    """case = {"basis": [perms], "form": argument form}.  Every function of permutils.symmetry on
+    the collection in the given form; the helpers' own one-shot outputs fed back in; after every
+    answer that is a mutable container: damage it, ask again, compare again."""
+    form = case["form"]
+    basis = [tuple(p) for p in case["basis"]]
+    L = logical_input(form, basis)
+    if L is None:
+        return None
+    orbit, lmin = ref if ref is not None else (X.orbit_sets(basis), X.lex_min(basis))
+    if form == "dup":
+        # a repeated element: the property speaks of SETS, so for the orbit and its minimum both
+        # readings of the argument are accepted, as a multiset (repeat kept, what the code does) and
+        # as a set (repeat dropped) - but one and the same reading for all_symmetry_sets and
+        # lex_min; the *_set helpers map element by element, repeat included
+        multi = basis + [basis[0]]
+        bad = _sets_eval(form, basis, multi, X.orbit_sets(multi), X.lex_min(multi))
+        if bad and _sets_eval(form, basis, multi, orbit, lmin):
+            part.violation("sets", case, bad)
+        return len(orbit)
+    args_basis = basis if form == "reversed" else L
+    if form in ("reversed", "Basis"):
+        pass        # same set, other order: orbit and lex-min are those of the set
+    bad = _sets_eval(form, args_basis, L, orbit, lmin)
     if bad:
         part.violation("sets", case, bad)
     return len(orbit)
+
+
+def case_chain(part, case):
+    """case = {"basis", "form", "h1", "h2"}: a helper applied to another helper's one-shot output is
+    the image under the product of the two symmetries, element by element."""
+    from permuta import permutils
+    form = case["form"]
+    L = logical_input(form, case["basis"])
+    if L is None:
+        return
+    s1, s2 = dict(HELPERS)[case["h1"]], dict(HELPERS)[case["h2"]]
+    exp = X.image_set(X.TABLE[(s1, s2)], L)
+    try:
+        args, kw = make_form(form, L if form not in ("dup", "reversed") else case["basis"])
+        got = [tuple(q) for q in getattr(permutils, case["h2"])(getattr(permutils, case["h1"])(*args, **kw))]
+    except Exception as exc:  # noqa
+        part.violation("chain", case, {"exception": repr(exc)})
+        return
+    ok = (sorted(got) == sorted(exp)) if form in UNORDERED else (got == exp)
+    if not ok:
+        part.violation("chain", case, {"product": X.TABLE[(s1, s2)], "expected": exp, "got": got})
+
+
+CHAIN_FORMS = ["list", "generator", "set", "kw"]
+
+
+def shard_chain(shard):
+    name, lo, hi = shard
+    part = Partial()
+    for B in POOLS[name][lo:hi]:
+        for form in CHAIN_FORMS:
+            for h1, s1 in HELPERS:
+                for h2, s2 in HELPERS:
+                    case_chain(part, {"basis": B, "form": form, "h1": h1, "h2": h2})
+            part.add(49, 49 if len(B) > 0 else 0)
+    return part
 
 
 POOLS = {}    # name -> list of bases (tuples of perms)
@@ -738,9 +872,12 @@ def shard_sets(shard):
     part = Partial()
     for B in POOLS[name][lo:hi]:
         ref = (X.orbit_sets(B), X.lex_min(B))
+        size = len(ref[0])
         for form in forms:
-            size = case_sets(part, {"basis": B, "form": form}, ref)
+            if case_sets(part, {"basis": B, "form": form}, ref) is None:
+                continue            # the form does not apply to this collection
             part.add(1, 1 if (size > 1 and len(B) > 1) else 0)
+            part.bump("form_" + form)
         part.bump("set_orbit_size_%d" % size)
         part.outcomes.add("set orbit of size %d" % size)
     return part
@@ -809,7 +946,7 @@ def shard_scale_mesh(shard):
     return part
 
 
-SCALE_FORMS = ["list", "reversed", "set", "generator"]
+SCALE_FORMS = ["list", "reversed", "set", "generator", "dup", "Basis"]
 
 
 def shard_scale_sets(shard):
@@ -817,9 +954,10 @@ def shard_scale_sets(shard):
     part = Partial()
     for B in X.scale_bases(n)[lo:hi]:
         ref = (X.orbit_sets(B), X.lex_min(B))
-        for form in SCALE_FORMS:
+        for form in (SCALE_FORMS if n <= 12 else SCALE_FORMS[:-1]):   # Basis: reference is brute force
             size = case_sets(part, {"basis": B, "form": form}, ref)
-            part.add(1, 1 if (size > 1 and len(B) > 1) else 0)
+            if size is not None:
+                part.add(1, 1 if (size > 1 and len(B) > 1) else 0)
     return part
 
 
@@ -842,6 +980,256 @@ def shard_scale_equiv(shard):
 
 
 # --------------------------------------------------------------------------------------------
+# abort : fault injection (bound 1) - an operation is cut off at its k-th call into the library,
+#         then everything is asked again on the same objects and on fresh equal objects
+# --------------------------------------------------------------------------------------------
+
+class _Abort(BaseException):
+    """Stands for Ctrl-C / an exception thrown out of the caller's loop body."""
+
+
+def _run_with_abort(fn, k, root):
+    """Run fn(); raise _Abort at the k-th 'call' event of a frame whose code lives under root
+    (k=None: never).  Returns (finished?, number of such events seen)."""
+    seen = [0]
+
+    def tracer(frame, event, arg):
+        if event == "call" and frame.f_code.co_filename.startswith(root):
+            seen[0] += 1
+            if seen[0] == k:
+                sys.settrace(None)
+                raise _Abort()
+        return None
+
+    sys.settrace(tracer)
+    try:
+        fn()
+        return True, seen[0]
+    except _Abort:
+        return False, seen[0]
+    finally:
+        sys.settrace(None)
+
+
+ABORT_TEXTS = [t for n in range(0, 4) for t in R.perms(n)] + [(1, 3, 0, 2), (0, 2, 3, 1), (3, 0, 1, 2)]
+ABORT_PERMS = [p for n in range(0, 4) for p in R.perms(n)] + [(1, 3, 0, 2), (0, 2, 3, 1)]
+ABORT_MESH = None     # filled lazily: Mesh<=1 and the named patterns of length <= 3
+ABORT_SETS = [((0,),), ((0, 1), (1, 0)), ((0, 2, 1), (1, 2, 3, 0)), ((1, 0), (0, 1, 2), (1, 3, 0, 2))]
+ABORT_OPS_PERM = ["reverse", "complement", "inverse", "reverse_complement", "flip_antidiagonal",
+                  "rotate(1)", "rotate(2)", "rotate(3)", "rotate(-1)"]
+ABORT_OPS_MESH = ["reverse", "complement", "inverse", "rotate(1)", "rotate(2)", "rotate(3)"]
+ABORT_SET_FUNCS = ["all_symmetry_sets", "lex_min"] + [h for h, _ in HELPERS]
+
+
+def abort_mesh_specs():
+    return as_specs(X.mesh_all(0) + X.mesh_all(1)) + \
+        [sp for sp in as_specs(X.NAMED) if len(sp[1]) <= 3] + \
+        [("vinc", (1, 0), (1,)), ("biv", (0, 1), (0,), (2,))]
+
+
+def abort_families():
+    """Descriptors (JSON-able) of the operations that are cut off."""
+    fams = []
+    for p in ABORT_PERMS:
+        for used in (False, True):
+            for lab in ABORT_OPS_PERM:
+                fams.append({"what": "perm_op", "perm": p, "used": used, "op": lab})
+            fams.append({"what": "all_syms", "kind": "perm", "perm": p, "used": used})
+        for t in ((0, 2, 1), (1, 3, 0, 2)):
+            fams.append({"what": "search", "kind": "perm", "perm": p, "text": t})
+    for spec in abort_mesh_specs():
+        for used in (False, True):
+            for lab in ABORT_OPS_MESH:
+                fams.append({"what": "mesh_op", "patt": spec, "used": used, "op": lab})
+            fams.append({"what": "all_syms", "kind": "mesh", "patt": spec, "used": used})
+        fams.append({"what": "search", "kind": "mesh", "patt": spec, "text": (1, 3, 0, 2)})
+    for B in ABORT_SETS:
+        for fname in ABORT_SET_FUNCS:
+            for form in ("list", "generator"):
+                fams.append({"what": "set_func", "basis": B, "func": fname, "form": form})
+        fams.append({"what": "cli", "basis": B})
+    return fams
+
+
+def _abort_setup(fam):
+    """-> (state, operation).  state = the objects the operation works on (read back later)."""
+    lib = _lib()
+    from permuta import permutils
+    what = fam["what"]
+    if what in ("perm_op", "mesh_op", "all_syms", "search"):
+        kind = "mesh" if (what == "mesh_op" or fam.get("kind") == "mesh") else "perm"
+        obj = _build_any(kind, fam)
+        if fam.get("used"):
+            warm(obj)
+        if what == "all_syms":
+            return {"kind": kind, "obj": obj}, obj.all_syms
+        if what == "search":
+            T = lib.Perm(tuple(fam["text"]))
+            return {"kind": kind, "obj": obj, "text": T}, lambda: obj.count_occurrences_in(T)
+        op = OPS_BY_LABEL[kind][fam["op"]]
+        return {"kind": kind, "obj": obj}, lambda: _call(obj, op[1], op[2])
+    if what == "set_func":
+        args, kw = make_form(fam["form"], fam["basis"])
+        fn = getattr(permutils, fam["func"])
+
+        def run_it():
+            res = fn(*args, **kw)
+            if not isinstance(res, (set, tuple)):
+                list(res)          # the helpers are lazy: consume
+        return {"args": args if fam["form"] == "list" else None}, run_it
+    if what == "cli":
+        text = spell(fam["basis"], 1, "_", False)
+        return {}, lambda: run_cli("func", text)
+    raise ValueError(what)
+
+
+def _object_readback(kind, fam, obj):
+    """Everything C04 says about one object, against the reference; returns a dict of failures."""
+    lib = _lib()
+    bad = {}
+    if kind == "perm":
+        p = tuple(fam["perm"])
+        st = p
+        canon, img = CANON_PERM, lambda s: R.apply_sym(s, p)
+        orbit = R.orbit(p)
+        ref_count = lambda t: len(R.occurrences(p, t))                      # noqa
+    else:
+        st = spec_struct(norm_spec(fam["patt"]))
+        canon, img = CANON_MESH, lambda s: R.apply_sym_mesh(s, st[0], st[1])
+        orbit = R.orbit_mesh(st[0], st[1])
+        ref_count = lambda t: len(R.mesh_occurrences(st[0], st[1], t))      # noqa
+    images = {}
+    for s in SYMS:
+        images[s] = call_seq(obj, canon[s])
+        got = _struct_any(kind, images[s])
+        if got != img(s):
+            bad["image " + s] = repr(got)
+    got = {_struct_any(kind, y) for y in obj.all_syms()}
+    if got != orbit:
+        bad["all_syms"] = sorted(map(repr, got))
+    for t in ABORT_TEXTS:
+        exp = ref_count(t)
+        T = lib.Perm(t)
+        if obj.count_occurrences_in(T) != exp or bool(T.contains(obj)) != (exp > 0):
+            bad["search in %r" % (t,)] = "expected %d occurrences" % exp
+        for s in SYMS[1:]:
+            if images[s].count_occurrences_in(call_seq(T, CANON_PERM[s])) != exp:
+                bad["search of the %s image in the image of %r" % (s, t)] = "expected %d" % exp
+    return bad
+
+
+def _abort_readback(fam, state):
+    from permuta import permutils
+    lib = _lib()
+    what = fam["what"]
+    bad = {}
+    if what in ("perm_op", "mesh_op", "all_syms", "search"):
+        kind = state["kind"]
+        for who, obj in (("same object", state["obj"]), ("fresh equal object", _build_any(kind, fam))):
+            for key, val in _object_readback(kind, fam, obj).items():
+                bad[who + ": " + key] = val
+        if what == "search":
+            t = tuple(fam["text"])
+            for who, T in (("same text", state["text"]), ("fresh text", lib.Perm(t))):
+                for key, val in _object_readback("perm", {"perm": t}, T).items():
+                    bad[who + ": " + key] = val
+        return bad
+    B = [tuple(p) for p in fam["basis"]]
+    orbit, lmin = X.orbit_sets(B), X.lex_min(B)
+    makers = [("fresh list", lambda: make_form("list", B)[0]),
+              ("fresh generator", lambda: make_form("generator", B)[0])]
+    if state.get("args") is not None:
+        makers.append(("the list given to the aborted call", lambda: state["args"]))
+    for who, mk in makers:
+        if _plain_sets(permutils.all_symmetry_sets(*mk())) != orbit:
+            bad["all_symmetry_sets, " + who] = "not the orbit"
+        if tuple(tuple(q) for q in permutils.lex_min(*mk())) != lmin:
+            bad["lex_min, " + who] = "not the orbit minimum"
+    for hname, sym in HELPERS:
+        if [tuple(q) for q in getattr(permutils, hname)(make_form("list", B)[0][0])] != X.image_set(sym, B):
+            bad[hname] = "wrong image"
+    exp = "_".join(X.perm_str0(p) for p in X.lex_min(X.minimal_elements(B))) + "\n"
+    if not any(len(p) == 0 for p in B):
+        for base in (0, 1):
+            got = run_cli("func", spell(B, base, "_", False))
+            if got != exp:
+                bad["permtools lexmin (%d-based)" % base] = got
+    for p in B:      # the objects Basis.from_string obtains through the lru_cache of to_standard
+        for key, val in _object_readback("perm", {"perm": p},
+                                         lib.Perm.to_standard(X.perm_str1(p))).items():
+            bad["to_standard object %r: %s" % (p, key)] = val
+    return bad
+
+
+def _abort_total(fam, root):
+    state, op = _abort_setup(fam)
+    return _run_with_abort(op, None, root)[1]
+
+
+def case_abort(part, case):
+    """case = family descriptor + {"abort_at_call": k}"""
+    import os
+    import signal
+    from ..core import REPO
+    root = os.path.join(os.path.abspath(REPO), "permuta") + os.sep
+    k = case["abort_at_call"]
+
+    def on_alarm(signum, frame):
+        raise TimeoutError("read-back did not finish within 20 s")
+
+    old = signal.signal(signal.SIGALRM, on_alarm)
+    old_hook = sys.unraisablehook
+    sys.unraisablehook = lambda unraisable: None
+    try:
+        try:
+            state, op = _abort_setup(case)
+        except Exception as exc:  # noqa
+            part.violation("abort", case, {"exception in set-up": repr(exc)})
+            return
+        try:
+            _run_with_abort(op, k, root)
+        except Exception as exc:  # noqa  (an ordinary exception of the operation itself)
+            part.violation("abort", case, {"exception in the operation": repr(exc)})
+            return
+        signal.alarm(20)
+        try:
+            bad = _abort_readback(case, state)
+        except TimeoutError as exc:
+            bad = {"hang": str(exc)}
+        except Exception as exc:  # noqa
+            bad = {"exception in read-back": repr(exc)}
+        finally:
+            signal.alarm(0)
+        if bad:
+            part.violation("abort", case, bad)
+    finally:
+        sys.unraisablehook = old_hook
+        signal.signal(signal.SIGALRM, old)
+
+
+def shard_abort(shard):
+    import os
+    from ..core import REPO
+    first, step = shard
+    root = os.path.join(os.path.abspath(REPO), "permuta") + os.sep
+    part = Partial()
+    points = 0
+    for fam in abort_families()[first::step]:
+        try:
+            total = _abort_total(fam, root)
+        except Exception as exc:  # noqa
+            part.violation("abort", dict(fam, abort_at_call=0), {"exception, undisturbed run": repr(exc)})
+            continue
+        for k in range(1, total + 1):
+            case_abort(part, dict(fam, abort_at_call=k))
+        points += total
+        part.add(total, total)
+        part.bump("abort_operations")
+    part.bump("abort_injection_points", points)
+    return part, points
+
+
+# --------------------------------------------------------------------------------------------
 # cli : permtools lexmin
 # --------------------------------------------------------------------------------------------
 
@@ -849,8 +1237,11 @@ SEPS = ["_", ":", ", ", " "]
 VIAS = ["main", "parser", "func"]
 
 
-def spell(B, base, sep, rev):
+def spell(B, base, sep, rev, dup=False):
+    """base 0 | 1; dup: the first permutation is listed once more at the end."""
     ps = list(B)[::-1] if rev else list(B)
+    if dup and ps:
+        ps = ps + [ps[0]]
     return sep.join((X.perm_str1 if base == 1 else X.perm_str0)(p) for p in ps)
 
 
@@ -881,7 +1272,7 @@ def case_cli(part, case, lmin=None):
     0-based spelling of the smallest member of the orbit of the (minimal elements of the) basis."""
     B = [tuple(p) for p in case["basis"]]
     img = X.image_set(case["sym"], B)
-    text = spell(img, case["base"], case["sep"], case["rev"])
+    text = spell(img, case["base"], case["sep"], case["rev"], bool(case.get("dup")))
     if lmin is None:
         lmin = X.lex_min(X.minimal_elements(B))
     exp = "_".join(X.perm_str0(p) for p in lmin) + "\n"
@@ -902,9 +1293,10 @@ def shard_cli(shard):
     for B in POOLS[name][lo:hi]:
         orbit_size = len(X.orbit_sets(B))
         lmin = X.lex_min(X.minimal_elements(B))
-        for (base, sep, rev, via) in variants:
+        for (base, sep, rev, via, dup) in variants:
             for s in syms:
-                case_cli(part, {"basis": B, "base": base, "sep": sep, "rev": rev, "via": via, "sym": s}, lmin)
+                case_cli(part, {"basis": B, "base": base, "sep": sep, "rev": rev, "via": via,
+                                "dup": dup, "sym": s}, lmin)
                 part.add(1, 1 if orbit_size > 1 else 0)
     return part
 
@@ -1098,10 +1490,10 @@ def run(ctx, only=None):
     if want("sets"):
         e0, v0 = ctx.evals, ctx.nviol
         POOLS["sets<=3 of S<=4"] = [()] + set_pool(4, 3)
-        plan = [("sets<=3 of S<=4", FORMS if not quick else ["list", "set"])]
+        plan = [("sets<=3 of S<=4", FORMS if not quick else ["list", "set", "dup"])]
+        POOLS["sets<=2 of S<=4"] = [()] + set_pool(4, 2)
         if quick:
-            POOLS["sets<=2 of S<=4"] = [()] + set_pool(4, 2)
-            plan.append(("sets<=2 of S<=4", ["tuple", "iter", "frozenset", "reversed", "generator"]))
+            plan.append(("sets<=2 of S<=4", [f for f in FORMS if f not in ("list", "set", "dup")]))
         else:
             POOLS["sets of 4 of S<=4"] = set_pool(4, 4, 4)
             POOLS["sets<=2 of S<=5 with an element of length 5"] = \
@@ -1116,6 +1508,13 @@ def run(ctx, only=None):
         for name, forms in plan:
             shards += chunked(name, len(POOLS[name]), 100 if quick else 400, forms)
         ctx.pmap(shard_sets, shards)
+        ctx.pmap(shard_chain, chunked("sets<=2 of S<=4", len(POOLS["sets<=2 of S<=4"]), 20))
+        ctx.bounds["chain"] = ("helper2(helper1(x)) for all 49 ordered pairs of the *_set helpers, x = "
+                               "every set of <= 2 perms of S<=4 given as %s" % CHAIN_FORMS)
+        ctx.bounds["fresh"] = ("every set returned by all_symmetry_sets is emptied and given a foreign "
+                               "member after it was checked; the call is repeated (equal new argument; "
+                               "for lists also the same argument object) and checked again; all_syms "
+                               "likewise if it ever returns a list/set")
         ctx.bounds["sets"] = [{"sets": name, "count": len(POOLS[name]), "container kinds": forms}
                               for name, forms in plan]
         ctx.section("sets", evaluations=ctx.evals - e0, violations=ctx.nviol - v0)
@@ -1146,17 +1545,39 @@ def run(ctx, only=None):
         }
         ctx.section("scale", evaluations=ctx.evals - e0, violations=ctx.nviol - v0)
 
+    if want("abort"):
+        e0, v0 = ctx.evals, ctx.nviol
+        nf = len(abort_families())
+        pts = ctx.pmap(shard_abort, [(i, 64) for i in range(64)])
+        ctx.bounds["abort"] = {
+            "operations cut off": nf,
+            "injection points (every call event inside permuta, 1..total)": sum(pts),
+            "families": "%d Perm ops and all_syms on %d perms (fresh and used), %d MeshPatt ops and "
+                        "all_syms on %d mesh patterns (fresh and used), one search per object, %d "
+                        "permutils.symmetry functions on %d sets (list and generator), `lexmin`"
+                        % (len(ABORT_OPS_PERM), len(ABORT_PERMS), len(ABORT_OPS_MESH),
+                           len(abort_mesh_specs()), len(ABORT_SET_FUNCS), len(ABORT_SETS)),
+            "read-back": "same objects and fresh equal objects: 8 images, all_syms, searches in %d texts "
+                         "and of the 7 moved images in the images of the texts; sets: all functions, lexmin, the "
+                         "objects cached by Perm.to_standard; guarded by a 20 s alarm" % len(ABORT_TEXTS)}
+        ctx.section("abort", evaluations=ctx.evals - e0, violations=ctx.nviol - v0,
+                    injection_points=sum(pts))
+
     if want("cli"):
         e0, v0 = ctx.evals, ctx.nviol
         # pools without the empty permutation (it cannot be spelled) and without the empty set
         def nonempty(maxlen, maxsize):
             return [b for b in set_pool(maxlen, maxsize) if all(len(p) > 0 for p in b)]
-        allv = [(base, sep, rev, via) for base in (0, 1) for sep in SEPS for rev in (False, True)
-                for via in VIAS]
-        fewv = [(0, "_", False, "main"), (1, ", ", True, "main"), (1, ":", False, "parser"),
-                (0, " ", True, "func")]
+        allv = [(base, sep, rev, via, False) for base in (0, 1) for sep in SEPS
+                for rev in (False, True) for via in VIAS] + \
+               [(base, "_", rev, via, True) for base in (0, 1) for rev in (False, True) for via in VIAS]
+        fewv = [(0, "_", False, "main", False), (1, ", ", True, "main", False),
+                (1, ":", False, "parser", False), (0, " ", True, "func", False),
+                (0, "_", False, "main", True), (1, ":", True, "func", True)]
         POOLS["cli<=2 of S1..4"] = nonempty(4, 2)
         mainv = [v for v in allv if v[3] == "main"]
+        ctx.bounds["cli forms"] = ("0-based and 1-based spellings; separators %s; both listing "
+                                   "orders; a repeated permutation; entry points %s" % (SEPS, VIAS))
         plan = [("cli<=2 of S1..4", fewv if quick else mainv, SYMS)]
         POOLS["cli<=3 of S1..3"] = nonempty(3, 3)
         plan.append(("cli<=3 of S1..3", allv, ["id", "antidiagonal"] if quick else SYMS))
@@ -1165,7 +1586,7 @@ def run(ctx, only=None):
             plan.append(("cli 3 of S1..4", fewv, ["id", "complement", "rot90", "antidiagonal"]))
         shards = []
         for name, variants, syms in plan:
-            shards += chunked(name, len(POOLS[name]), 10 if len(variants) > 4 else 40, variants, syms)
+            shards += chunked(name, len(POOLS[name]), 10 if len(variants) > 6 else 30, variants, syms)
         ctx.pmap(shard_cli, shards)
         ctx.bounds["cli"] = [{"bases": name, "count": len(POOLS[name]), "spellings": len(v),
                               "symmetric images spelled": list(sy)} for name, v, sy in plan]
@@ -1190,7 +1611,8 @@ CASE_FUNCS = {
     "group": case_group, "rot_add": case_rot_add,
     "equiv": case_equiv, "equiv_state": case_equiv,
     "mesh_equiv": case_mesh_equiv, "mesh_equiv_state": case_mesh_equiv,
-    "all_syms": case_all_syms, "sets": case_sets, "cli": case_cli,
+    "all_syms": case_all_syms, "sets": case_sets, "cli": case_cli, "chain": case_chain,
+    "abort": case_abort,
 }
 
 
